@@ -13,7 +13,7 @@
       sheet order agrees with the specification's order of appearance;
    6. the specification's arg-max over numbered occurrences is that sum. *)
 From Verif Require Import Css.Cascade Css.CascadeSpec.
-From Coq Require Import List NArith Bool Lia ZifyBool ZifyN.
+From Coq Require Import List NArith Bool Lia ZifyBool ZifyN ZifyNat FinFun.
 Import ListNotations.
 Open Scope N_scope.
 
@@ -246,48 +246,51 @@ Qed.
 Definition forced_spec (forced : option spec3) (s : sel) : spec3 :=
   match forced with Some f => f | None => specificity s end.
 
-Definition rule_ev (o : origin) (forced : option spec3) (path : path) (r : frule) (p : N) : list entry :=
-  flat_map (fun s => if matches s path
+Definition rule_ev (o : origin) (forced : option spec3) (k : N) (path : path) (r : frule) (p : N) : list entry :=
+  flat_map (fun s => if applies s k path
                      then flat_map (fun d => decl_ev o false (forced_spec forced s) d p) (snd r)
                      else []) (fst r).
 
-Lemma acts_apply_rule o forced path r :
-  acts (fun m => apply_rule o forced path m r) (rule_ev o forced path r).
+Lemma acts_apply_rule o forced k path r :
+  acts (fun m => apply_rule o forced k path m r) (rule_ev o forced k path r).
 Proof.
   unfold apply_rule, rule_ev.
-  apply (acts_fold (fun m s => if matches s path then fold_left (insert o false (forced_spec forced s)) (snd r) m else m)
-                   (fun s p => if matches s path then flat_map (fun d => decl_ev o false (forced_spec forced s) d p) (snd r) else [])).
-  intros s. destruct (matches s path).
+  apply (acts_fold (fun m s => if applies s k path then fold_left (insert o false (forced_spec forced s)) (snd r) m else m)
+                   (fun s p => if applies s k path then flat_map (fun d => decl_ev o false (forced_spec forced s) d p) (snd r) else [])).
+  intros s. destruct (applies s k path).
   - apply (acts_fold (insert o false (forced_spec forced s)) (fun d p => decl_ev o false (forced_spec forced s) d p)).
     intros d. apply acts_insert.
   - apply acts_id.
 Qed.
 
-Definition sheet_ev (path : path) (sh : sheet) (p : N) : list entry :=
-  flat_map (fun r => rule_ev (sh_origin sh) (sh_forced sh) path r p) (sh_rules sh).
+Definition sheet_ev (k : N) (path : path) (sh : sheet) (p : N) : list entry :=
+  flat_map (fun r => rule_ev (sh_origin sh) (sh_forced sh) k path r p) (sh_rules sh).
 
-Lemma acts_apply_sheet path sh : acts (fun m => apply_sheet path m sh) (sheet_ev path sh).
+Lemma acts_apply_sheet k path sh : acts (fun m => apply_sheet k path m sh) (sheet_ev k path sh).
 Proof.
   unfold apply_sheet, sheet_ev.
-  apply (acts_fold (apply_rule (sh_origin sh) (sh_forced sh) path)
-                   (fun r p => rule_ev (sh_origin sh) (sh_forced sh) path r p)).
+  apply (acts_fold (apply_rule (sh_origin sh) (sh_forced sh) k path)
+                   (fun r p => rule_ev (sh_origin sh) (sh_forced sh) k path r p)).
   intros r. apply acts_apply_rule.
 Qed.
 
-Definition attr_ev (d : document) (path : path) (p : N) : list entry :=
+Definition attr_ev (d : document) (k : N) (path : path) (p : N) : list entry :=
   match path with
   | [] => []
   | e :: _ =>
-      flat_map (fun dc => decl_ev Author true (1, 0, 0) dc p) (n_style e)
-      ++ (if doc_hints d then flat_map (fun dc => decl_ev Author false (0, 0, 0) dc p) (n_hints e) else [])
+      if k =? 0 then
+        flat_map (fun dc => decl_ev Author true (1, 0, 0) dc p) (n_style e)
+        ++ (if doc_hints d then flat_map (fun dc => decl_ev Author false (0, 0, 0) dc p) (n_hints e) else [])
+      else []
   end.
 
-Definition impl_ev (d : document) (path : path) (p : N) : list entry :=
-  attr_ev d path p ++ flat_map (fun sh => sheet_ev path sh p) (all_sheets d).
+Definition impl_ev (d : document) (k : N) (path : path) (p : N) : list entry :=
+  attr_ev d k path p ++ flat_map (fun sh => sheet_ev k path sh p) (all_sheets d).
 
-Lemma attr_pass_ev d path p : attr_pass d path p = sumE (attr_ev d path p).
+Lemma attr_pass_ev d k path p : attr_pass d k path p = sumE (attr_ev d k path p).
 Proof.
   unfold attr_pass, attr_ev. destruct path as [|e anc]; [reflexivity|].
+  destruct (k =? 0); [|reflexivity].
   pose proof (acts_fold (insert Author true (1,0,0)) (fun dc p => decl_ev Author true (1,0,0) dc p) (n_style e)
                 (fun dc => acts_insert Author true (1,0,0) dc)) as H1.
   pose proof (acts_fold (insert Author false (0,0,0)) (fun dc p => decl_ev Author false (0,0,0) dc p) (n_hints e)
@@ -297,11 +300,11 @@ Proof.
   - rewrite H1, app_nil_r. reflexivity.
 Qed.
 
-Lemma cascade_impl_ev d path p : cascade_impl d path p = sumE (impl_ev d path p).
+Lemma cascade_impl_ev d k path p : cascade_impl d k path p = sumE (impl_ev d k path p).
 Proof.
   unfold cascade_impl, impl_ev.
-  pose proof (acts_fold (apply_sheet path) (fun sh p => sheet_ev path sh p) (all_sheets d)
-                (fun sh => acts_apply_sheet path sh)) as H.
+  pose proof (acts_fold (apply_sheet k path) (fun sh p => sheet_ev k path sh p) (all_sheets d)
+                (fun sh => acts_apply_sheet k path sh)) as H.
   rewrite H, attr_pass_ev, sumE_app. reflexivity.
 Qed.
 
@@ -357,49 +360,49 @@ Proof.
 Qed.
 
 (* specificity the rule has for the element *)
-Definition rule_rank (forced : option spec3) (g : list sel) (path : path) : spec3 :=
+Definition rule_rank (forced : option spec3) (g : list sel) (k : N) (path : path) : spec3 :=
   match forced with
   | Some f => f
-  | None => fold_right (fun s acc => if matches s path then lex_max (specificity s) acc else acc) (0, 0, 0) g
+  | None => fold_right (fun s acc => if applies s k path then lex_max (specificity s) acc else acc) (0, 0, 0) g
   end.
 
-Definition group_matches (g : list sel) (path : path) : bool := existsb (fun s => matches s path) g.
+Definition group_matches (g : list sel) (k : N) (path : path) : bool := existsb (fun s => applies s k path) g.
 
-Lemma rank_no_match g path :
-  group_matches g path = false ->
-  fold_right (fun s acc => if matches s path then lex_max (specificity s) acc else acc) (0, 0, 0) g = (0, 0, 0).
+Lemma rank_no_match g k path :
+  group_matches g k path = false ->
+  fold_right (fun s acc => if applies s k path then lex_max (specificity s) acc else acc) (0, 0, 0) g = (0, 0, 0).
 Proof.
   induction g as [|s g IH]; simpl; auto.
-  destruct (matches s path); simpl; [discriminate|auto].
+  destruct (applies s k path); simpl; [discriminate|auto].
 Qed.
 
 Lemma lex_max_idem s : lex_max s s = s.
 Proof. unfold lex_max. destruct (lex_le s s); reflexivity. Qed.
 
-Lemma rule_ev_sum o forced path g ds p :
-  sumE (rule_ev o forced path (g, ds) p) =
-  if group_matches g path then sumE (block o false (rule_rank forced g path) ds p) else None.
+Lemma rule_ev_sum o forced k path g ds p :
+  sumE (rule_ev o forced k path (g, ds) p) =
+  if group_matches g k path then sumE (block o false (rule_rank forced g k path) ds p) else None.
 Proof.
   unfold rule_ev; cbn [fst snd]. fold (block o false).
   induction g as [|s g IH]; [reflexivity|].
   cbn [flat_map]. rewrite sumE_app, IH. unfold group_matches in *. cbn [existsb].
-  destruct (matches s path) eqn:Ms; cbn [orb].
+  destruct (applies s k path) eqn:Ms; cbn [orb].
   - fold (block o false (forced_spec forced s) ds p). rewrite block_sum.
-    destruct (existsb (fun s0 => matches s0 path) g) eqn:Eg.
+    destruct (existsb (fun s0 => applies s0 k path) g) eqn:Eg.
     + rewrite block_sum, lift_merge, block_sum. f_equal.
       unfold rule_rank, forced_spec. destruct forced; [apply lex_max_idem|].
       cbn [fold_right]. rewrite Ms. reflexivity.
     + rewrite omerge_None_r, block_sum. f_equal.
       unfold rule_rank, forced_spec. destruct forced; [reflexivity|].
-      cbn [fold_right]. rewrite Ms, (rank_no_match g path Eg), lex_max_zero_r. reflexivity.
+      cbn [fold_right]. rewrite Ms, (rank_no_match g k path Eg), lex_max_zero_r. reflexivity.
   - rewrite sumE_nil. cbn [omerge].
-    destruct (existsb (fun s0 => matches s0 path) g); [|reflexivity].
+    destruct (existsb (fun s0 => applies s0 k path) g); [|reflexivity].
     f_equal. unfold rule_rank. destruct forced; [reflexivity|]. cbn [fold_right]. rewrite Ms. reflexivity.
 Qed.
 
 (* one (selector list, declaration) pair *)
-Definition pair_ev (o : origin) (forced : option spec3) (path : path) (p : N) (gd : list sel * decl) : list entry :=
-  if group_matches (fst gd) path then decl_ev o false (rule_rank forced (fst gd) path) (snd gd) p else [].
+Definition pair_ev (o : origin) (forced : option spec3) (k : N) (path : path) (p : N) (gd : list sel * decl) : list entry :=
+  if group_matches (fst gd) k path then decl_ev o false (rule_rank forced (fst gd) k path) (snd gd) p else [].
 
 Definition pairs (l : list frule) : list (list sel * decl) :=
   flat_map (fun r => map (pair (fst r)) (snd r)) l.
@@ -415,18 +418,778 @@ Lemma flat_map_map {A B C} (f : B -> list C) (h : A -> B) l :
   flat_map f (map h l) = flat_map (fun x => f (h x)) l.
 Proof. induction l; simpl; congruence. Qed.
 
-Lemma rule_ev_pairs o forced path r p :
-  sumE (rule_ev o forced path r p) = sumE (flat_map (pair_ev o forced path p) (map (pair (fst r)) (snd r))).
+Lemma rule_ev_pairs o forced k path r p :
+  sumE (rule_ev o forced k path r p) = sumE (flat_map (pair_ev o forced k path p) (map (pair (fst r)) (snd r))).
 Proof.
   destruct r as [g ds]. rewrite rule_ev_sum. cbn [fst snd]. rewrite flat_map_map.
-  unfold pair_ev; cbn [fst snd]. destruct (group_matches g path).
+  unfold pair_ev; cbn [fst snd]. destruct (group_matches g k path).
   - reflexivity.
   - rewrite flat_map_nil. reflexivity.
 Qed.
 
-Lemma sheet_ev_pairs path sh p :
-  sumE (sheet_ev path sh p) = sumE (flat_map (pair_ev (sh_origin sh) (sh_forced sh) path p) (pairs (sh_rules sh))).
+Lemma sheet_ev_pairs k path sh p :
+  sumE (sheet_ev k path sh p) = sumE (flat_map (pair_ev (sh_origin sh) (sh_forced sh) k path p) (pairs (sh_rules sh))).
 Proof.
   unfold sheet_ev, pairs. rewrite flat_map_flat_map.
   apply sumE_flat_map. intros r _. apply rule_ev_pairs.
+Qed.
+
+(* ------------------------------------------------------------------ 5. flattening keeps the source order *)
+
+(* (resolved selector list, declaration) in the order the declarations are written *)
+Fixpoint body_pairs (g : list sel) (b : body) : list (list sel * decl) :=
+  match b with
+  | BNil => []
+  | BDecl d rest => (g, d) :: body_pairs g rest
+  | BNest pre inner rest => body_pairs (resolve g pre) inner ++ body_pairs g rest
+  end.
+
+Lemma pairs_app l1 l2 : pairs (l1 ++ l2) = pairs l1 ++ pairs l2.
+Proof. apply flat_map_app. Qed.
+
+Lemma pairs_one g ds : pairs [(g, ds)] = map (pair g) ds.
+Proof. unfold pairs; simpl. apply app_nil_r. Qed.
+
+Lemma flatten_body_pairs g b : forall own out,
+  pairs (flatten_body g b own out) = pairs out ++ map (pair g) own ++ body_pairs g b.
+Proof.
+  revert g. induction b as [|d rest IH|pre inner IHi rest IHr]; intros g own out; cbn [flatten_body body_pairs].
+  - rewrite app_nil_r. destruct own as [|d own]; cbn [nonempty orb].
+    + destruct out; cbn [nonempty negb]; [reflexivity|rewrite app_nil_r; reflexivity].
+    + rewrite pairs_app, pairs_one. reflexivity.
+  - rewrite IH, map_app, <- !app_assoc. reflexivity.
+  - destruct own as [|d own]; cbn [nonempty].
+    + rewrite IHr, pairs_app, IHi. cbn [pairs flat_map map app]. rewrite <- !app_assoc. reflexivity.
+    + rewrite IHr, !pairs_app, pairs_one, IHi. cbn [pairs flat_map map app]. rewrite <- !app_assoc. reflexivity.
+Qed.
+
+Fixpoint rules_pairs (device : N) (rs : rules) (ignore_imports : bool) : list (list sel * decl) :=
+  match rs with
+  | RNil => []
+  | RStyle g b rest => body_pairs (resolve_top g) b ++ rules_pairs device rest true
+  | RImport q fetched sh rest =>
+      if ignore_imports then rules_pairs device rest ignore_imports
+      else if negb (evaluate_media q device) then rules_pairs device rest ignore_imports
+      else if fetched then rules_pairs device sh false ++ rules_pairs device rest ignore_imports
+      else rules_pairs device rest ignore_imports
+  | RMedia q inner rest =>
+      if evaluate_media q device
+      then rules_pairs device inner true ++ rules_pairs device rest true
+      else rules_pairs device rest true
+  | ROther rest => rules_pairs device rest true
+  end.
+
+Lemma flatten_rules_pairs device rs : forall ig, pairs (flatten_rules device rs ig) = rules_pairs device rs ig.
+Proof.
+  induction rs as [|g b rest IH|q inner IHi rest IHr|q fetched sh IHs rest IHr|rest IH]; intros ig;
+    cbn [flatten_rules rules_pairs].
+  - reflexivity.
+  - rewrite pairs_app, flatten_body_pairs, IH. reflexivity.
+  - destruct (evaluate_media q device); [rewrite pairs_app, IHi, IHr|rewrite IHr]; reflexivity.
+  - destruct ig; [apply IHr|]. destruct (evaluate_media q device); cbn [negb]; [|apply IHr].
+    destruct fetched; [rewrite pairs_app, IHs, IHr; reflexivity|apply IHr].
+  - apply IH.
+Qed.
+
+(* --- nested selectors mean what css-nesting says *)
+
+Lemma matches_nil s : matches s [] = false.
+Proof. destruct s; reflexivity. Qed.
+
+Lemma smatch_nil amp s : smatch amp s [] = false.
+Proof. destruct s; reflexivity. Qed.
+
+Lemma any_suffix_ext f g l : (forall q, f q = g q) -> any_suffix f l = any_suffix g l.
+Proof. intros H. induction l; simpl; auto. rewrite H, IHl. reflexivity. Qed.
+
+Lemma up_any amp a anc :
+  (fix up (q : path) : bool := match q with [] => false | _ :: r => smatch amp a q || up r end) anc
+  = any_suffix (smatch amp a) anc.
+Proof. induction anc as [|e anc IH]; [reflexivity|]. cbn [any_suffix]. rewrite <- IH. reflexivity. Qed.
+
+Lemma smatch_desc amp a b e anc :
+  smatch amp (SDesc a b) (e :: anc) = smatch amp b (e :: anc) && any_suffix (smatch amp a) anc.
+Proof. cbn [smatch]. rewrite up_any. reflexivity. Qed.
+
+Lemma subst_sem amp r : (forall q, amp q = matches r q) ->
+  forall s q, smatch amp s q = matches (subst_amp r s) q.
+Proof.
+  intros Hr. induction s; intros q; destruct q as [|e anc];
+    try (rewrite smatch_nil, matches_nil; reflexivity); try reflexivity.
+  - cbn [subst_amp]. cbn [smatch]. apply Hr.
+  - cbn [subst_amp smatch matches]. rewrite IHs1, IHs2. reflexivity.
+  - rewrite smatch_desc. cbn [subst_amp matches]. rewrite IHs2. f_equal. apply any_suffix_ext. auto.
+  - cbn [subst_amp smatch matches]. rewrite IHs1, IHs2. reflexivity.
+  - cbn [subst_amp smatch matches]. apply IHs.
+  - cbn [subst_amp smatch matches]. rewrite IHs1, IHs2. reflexivity.
+Qed.
+
+Lemma spec_add_let x y :
+  (let '(a1, b1, c1) := x in let '(a2, b2, c2) := y in (a1 + a2, b1 + b2, c1 + c2)) = spec_add x y.
+Proof. reflexivity. Qed.
+
+Lemma subst_spec aspec r : aspec = specificity r ->
+  forall s, sspec aspec s = specificity (subst_amp r s).
+Proof.
+  intros Hr. induction s; cbn [sspec subst_amp specificity]; auto;
+    try (rewrite IHs1, IHs2; reflexivity).
+  - rewrite IHs1, IHs2, spec_max_lex. reflexivity.
+  - rewrite IHs. destruct (specificity (subst_amp r s)) as [[a1 b1] c1]. cbn [spec_add]. cbv beta iota.
+    rewrite !N.add_0_r. reflexivity.
+Qed.
+
+Lemma mentions_has s : mentions_amp s = has_amp s.
+Proof. induction s; simpl; congruence. Qed.
+
+Lemma subst_no_amp r s : has_amp s = false -> subst_amp r s = s.
+Proof.
+  induction s; cbn [has_amp subst_amp]; intros H; auto; try discriminate;
+    try (apply orb_false_iff in H; destruct H; rewrite IHs1, IHs2; auto).
+  all: rewrite IHs; auto.
+Qed.
+
+Lemma subst_implied r s : has_amp s = false -> subst_amp r (implied_amp s) = prepend_desc r s.
+Proof.
+  induction s; cbn [has_amp implied_amp prepend_desc subst_amp]; intros H; auto; try discriminate.
+  - apply orb_false_iff in H. destruct H as [H1 H2]. rewrite (subst_no_amp r _ H1), (subst_no_amp r _ H2). reflexivity.
+  - apply orb_false_iff in H. destruct H as [H1 H2]. rewrite IHs1, (subst_no_amp r _ H2); auto.
+  - apply orb_false_iff in H. destruct H as [H1 H2]. rewrite IHs1, (subst_no_amp r _ H2); auto.
+  - rewrite (subst_no_amp r _ H). reflexivity.
+  - apply orb_false_iff in H. destruct H as [H1 H2]. rewrite (subst_no_amp r _ H1), (subst_no_amp r _ H2). reflexivity.
+  - rewrite IHs; auto.
+Qed.
+
+(* selecting the element itself is plain matching *)
+Lemma applies_zero s q : applies s 0 q = matches s q.
+Proof.
+  destruct s; cbn [applies]; rewrite ?N.eqb_refl; cbn [andb]; try reflexivity.
+  rewrite andb_false_r. destruct q; reflexivity.
+Qed.
+
+Definition not_pseudo (r : sel) : Prop := forall k q, applies r k q = (k =? 0) && matches r q.
+
+Lemma sapplies_subst amp r : (forall q, amp q = matches r q) -> not_pseudo r ->
+  forall s k q, sapplies amp s k q = applies (subst_amp r s) k q.
+Proof.
+  intros Hr Hnp s k q.
+  destruct s; cbn [sapplies subst_amp];
+    try (rewrite (subst_sem amp r Hr); reflexivity).
+  (* & *) rewrite Hnp, (subst_sem amp r Hr). reflexivity.
+Qed.
+
+Definition sel_rel (c : ctx) (s s' : sel) : Prop :=
+  (forall k q, sapplies (c_amp c) s k q = applies s' k q) /\ sspec (c_aspec c) s = specificity s'.
+
+Definition grp_rel (c : ctx) (g g' : list sel) : Prop := Forall2 (sel_rel c) g g'.
+
+Lemma grp_rel_matches c g g' k q : grp_rel c g g' -> list_matches c g k q = group_matches g' k q.
+Proof.
+  unfold list_matches, group_matches. induction 1 as [|s s' g g' [Hm _] _ IH]; simpl; auto.
+  rewrite Hm, IH. reflexivity.
+Qed.
+
+Lemma grp_rel_rank c g g' k path : grp_rel c g g' -> list_rank c g k path = rule_rank None g' k path.
+Proof.
+  unfold list_rank, rule_rank. induction 1 as [|s s' g g' [Hm Hs] _ IH]; simpl; auto.
+  rewrite Hm, Hs, IH. reflexivity.
+Qed.
+
+Lemma or_list_matches g q : matches (or_list g) q = group_matches g 0 q.
+Proof.
+  unfold group_matches. destruct q as [|e anc].
+  { rewrite matches_nil. induction g; simpl; auto. rewrite applies_zero, matches_nil. auto. }
+  induction g as [|s g IH]; [reflexivity|].
+  destruct g as [|s2 g].
+  - simpl. rewrite applies_zero, orb_false_r. reflexivity.
+  - change (or_list (s :: s2 :: g)) with (SOr s (or_list (s2 :: g))).
+    cbn [matches]. rewrite IH. cbn [existsb]. rewrite !applies_zero. reflexivity.
+Qed.
+
+Lemma or_list_spec c g g' : grp_rel c g g' -> list_spec c g = specificity (or_list g').
+Proof.
+  unfold list_spec. induction 1 as [|s s' g g' [_ Hs] Hg IH]; [reflexivity|].
+  cbn [fold_right]. rewrite Hs, IH. destruct Hg as [|s2 s2' g g' ? ?].
+  - simpl. apply lex_max_zero_r.
+  - change (or_list (s' :: s2' :: g')) with (SOr s' (or_list (s2' :: g'))).
+    cbn [specificity]. rewrite spec_max_lex. reflexivity.
+Qed.
+
+Lemma parent_is_not_pseudo g : not_pseudo (parent_is g).
+Proof. intros k q. reflexivity. Qed.
+
+Lemma resolve_rel c g g' pre :
+  grp_rel c g g' -> grp_rel (child_ctx c g) (map relative pre) (resolve g' pre).
+Proof.
+  intros Hg. unfold grp_rel, resolve.
+  assert (Hamp : forall q, c_amp (child_ctx c g) q = matches (parent_is g') q).
+  { intros q. cbn [child_ctx c_amp]. rewrite (grp_rel_matches _ _ _ 0 q Hg), <- or_list_matches.
+    destruct q; [rewrite !matches_nil; reflexivity|reflexivity]. }
+  assert (Hsp : c_aspec (child_ctx c g) = specificity (parent_is g')).
+  { cbn [child_ctx c_aspec]. rewrite (or_list_spec _ _ _ Hg). reflexivity. }
+  pose proof (parent_is_not_pseudo g') as Hnp.
+  induction pre as [|s pre IH]; cbn [map]; constructor; auto.
+  unfold relative. rewrite mentions_has. destruct (has_amp s) eqn:Ha; split.
+  - apply sapplies_subst; auto.
+  - apply subst_spec; auto.
+  - intros k q. rewrite (sapplies_subst _ _ Hamp Hnp), subst_implied; auto.
+  - rewrite (subst_spec _ _ Hsp), subst_implied; auto.
+Qed.
+
+Lemma subst_amp_id s : subst_amp SAmp s = s.
+Proof. induction s; cbn [subst_amp]; congruence. Qed.
+
+Lemma top_rel g : forallb (fun s => negb (mentions_amp s)) g = true -> grp_rel top_ctx g (resolve_top g).
+Proof.
+  unfold grp_rel, resolve_top. induction g as [|s g IH]; cbn [forallb map]; intros H; constructor.
+  - apply andb_true_iff in H. destruct H as [H _]. rewrite mentions_has in H.
+    rewrite subst_no_amp by (destruct (has_amp s); auto; discriminate).
+    split.
+    + intros k q. rewrite (sapplies_subst (c_amp top_ctx) SAmp), subst_amp_id; auto.
+      * intros q'. destruct q'; reflexivity.
+      * intros k' q'. reflexivity.
+    + rewrite (subst_spec (c_aspec top_ctx) SAmp), subst_amp_id; auto.
+  - apply IH. apply andb_true_iff in H. tauto.
+Qed.
+
+Definition occs_of_pairs (k : N) (path : path) (l : list (list sel * decl)) : list (decl * spec3) :=
+  flat_map (fun gd => if group_matches (fst gd) k path then [(snd gd, rule_rank None (fst gd) k path)] else []) l.
+
+Lemma occs_of_pairs_app k path l1 l2 :
+  occs_of_pairs k path (l1 ++ l2) = occs_of_pairs k path l1 ++ occs_of_pairs k path l2.
+Proof. apply flat_map_app. Qed.
+
+Lemma body_rel k path b : forall c g g', grp_rel c g g' ->
+  body_occs c g b k path = occs_of_pairs k path (body_pairs g' b).
+Proof.
+  induction b as [|d rest IH|pre inner IHi rest IHr]; intros c g g' Hg; cbn [body_occs body_pairs].
+  - reflexivity.
+  - change ((g', d) :: body_pairs g' rest) with ([(g', d)] ++ body_pairs g' rest).
+    rewrite occs_of_pairs_app, (IH c g g' Hg). f_equal.
+    unfold occs_of_pairs; cbn [flat_map fst snd]. rewrite app_nil_r.
+    rewrite (grp_rel_matches _ _ _ k path Hg), (grp_rel_rank _ _ _ k path Hg). reflexivity.
+  - rewrite occs_of_pairs_app, (IHr c g g' Hg), (IHi _ _ _ (resolve_rel c g g' pre Hg)). reflexivity.
+Qed.
+
+(* the declarations of a sheet that apply, as the specification lists them, are
+   the flattened ones in the same order *)
+Lemma rules_rel k path device rs : forall ig, rules_no_top_amp rs = true ->
+  rules_occs device (negb ig) rs k path = occs_of_pairs k path (rules_pairs device rs ig).
+Proof.
+  induction rs as [|g b rest IH|q inner IHi rest IHr|q fetched sh IHs rest IHr|rest IH]; intros ig Hw;
+    cbn [rules_occs rules_pairs rules_no_top_amp] in *.
+  - reflexivity.
+  - apply andb_true_iff in Hw. destruct Hw as [Hg Hw].
+    rewrite occs_of_pairs_app, (body_rel k path b _ _ _ (top_rel g Hg)). f_equal. apply (IH true Hw).
+  - apply andb_true_iff in Hw. destruct Hw as [Hi Hw].
+    change (media_matches q device) with (evaluate_media q device).
+    destruct (evaluate_media q device).
+    + rewrite occs_of_pairs_app. f_equal; [apply (IHi true Hi)|apply (IHr true Hw)].
+    + apply (IHr true Hw).
+  - apply andb_true_iff in Hw. destruct Hw as [Hs Hw].
+    change (media_matches q device) with (evaluate_media q device).
+    destruct ig; cbn [negb andb]; [apply (IHr true Hw)|].
+    destruct (evaluate_media q device); cbn [negb]; [|destruct fetched; apply (IHr false Hw)].
+    destruct fetched; cbn [andb]; [|apply (IHr false Hw)].
+    rewrite occs_of_pairs_app. f_equal; [apply (IHs false Hs)|apply (IHr false Hw)].
+  - apply (IH true Hw).
+Qed.
+
+(* ------------------------------------------------------------------ 6. occurrences as entries *)
+
+Definition level_prec (l : level) : N := level_index l + 1.
+
+(* the precedence table of the code is the CSS one *)
+Lemma precedence_table_correct o i : declaration_precedence o i = level_prec (level_of o i).
+Proof. destruct o, i; reflexivity. Qed.
+
+Lemma precedence_table_order o1 i1 o2 i2 :
+  declaration_precedence o1 i1 < declaration_precedence o2 i2 <->
+  level_index (level_of o1 i1) < level_index (level_of o2 i2).
+Proof. rewrite !precedence_table_correct. unfold level_prec. lia. Qed.
+
+Definition wt (o : occ) : weight :=
+  match o_rank o with
+  | RHint => mkW (level_prec (o_level o)) false (0, 0, 0)
+  | RSel s => mkW (level_prec (o_level o)) false s
+  | RAttr => mkW (level_prec (o_level o)) true (1, 0, 0)
+  end.
+
+Definition occ_ev (p : N) (o : occ) : list entry := if o_prop o =? p then [(wt o, o_vid o)] else [].
+Definition occs_ev (l : list occ) (p : N) : list entry := flat_map (occ_ev p) l.
+
+Lemma occs_ev_app l1 l2 p : occs_ev (l1 ++ l2) p = occs_ev l1 p ++ occs_ev l2 p.
+Proof. apply flat_map_app. Qed.
+
+Definition hint_forced (hint : bool) : option spec3 := if hint then Some (0, 0, 0) else None.
+
+Lemma sheet_occs_ev o hint device rs k path p : rules_no_top_amp rs = true ->
+  occs_ev (sheet_occs o hint device rs k path) p
+  = flat_map (pair_ev o (hint_forced hint) k path p) (rules_pairs device rs false).
+Proof.
+  intros Hw. unfold occs_ev, sheet_occs.
+  pose proof (rules_rel k path device rs false Hw) as Hr. cbn [negb] in Hr. rewrite Hr. unfold occs_of_pairs.
+  rewrite flat_map_map, flat_map_flat_map.
+  apply flat_map_ext. intros [g d]. unfold pair_ev. cbn [fst snd].
+  destruct (group_matches g k path); [|reflexivity].
+  cbn [flat_map fst snd]. rewrite app_nil_r.
+  unfold occ_ev, decl_ev, wt. cbn [o_prop o_vid o_level o_rank].
+  destruct (d_prop d =? p); [|reflexivity].
+  rewrite precedence_table_correct. destruct hint; reflexivity.
+Qed.
+
+Lemma attr_occs_ev_attr ds p :
+  occs_ev (attr_occs RAttr ds) p = flat_map (fun dc => decl_ev Author true (1, 0, 0) dc p) ds.
+Proof.
+  unfold occs_ev, attr_occs. rewrite flat_map_map. apply flat_map_ext. intros d.
+  unfold occ_ev, decl_ev, wt. cbn [o_prop o_vid o_level o_rank].
+  rewrite precedence_table_correct. reflexivity.
+Qed.
+
+Lemma attr_occs_ev_hint ds p :
+  occs_ev (attr_occs RHint ds) p = flat_map (fun dc => decl_ev Author false (0, 0, 0) dc p) ds.
+Proof.
+  unfold occs_ev, attr_occs. rewrite flat_map_map. apply flat_map_ext. intros d.
+  unfold occ_ev, decl_ev, wt. cbn [o_prop o_vid o_level o_rank].
+  rewrite precedence_table_correct. reflexivity.
+Qed.
+
+(* the entries of one sheet, in the specification's terms *)
+Lemma sheet_ev_occs k path o hint device rs p : rules_no_top_amp rs = true ->
+  sumE (sheet_ev k path (mkSheet o (hint_forced hint) (flatten_rules device rs false)) p)
+  = sumE (occs_ev (sheet_occs o hint device rs k path) p).
+Proof.
+  intros Hw. rewrite sheet_ev_pairs. cbn [sh_origin sh_forced sh_rules].
+  rewrite flatten_rules_pairs, (sheet_occs_ev _ _ _ _ _ _ _ Hw). reflexivity.
+Qed.
+
+(* --- blocks of different origin / importance / attribute flag commute *)
+
+Definition osig (P : N -> bool -> Prop) (a : option entry) : Prop :=
+  match a with None => True | Some e => P (w_prec (fst e)) (w_attr (fst e)) end.
+
+Lemma osig_sumE P l : Forall (fun e => P (w_prec (fst e)) (w_attr (fst e))) l -> osig P (sumE l).
+Proof.
+  intros H. destruct (sumE l) as [e|] eqn:E; simpl; auto.
+  apply sumE_in in E. rewrite Forall_forall in H. apply (H e E).
+Qed.
+
+Lemma osig_merge P a b : osig P a -> osig P b -> osig P (omerge a b).
+Proof. destruct a, b; simpl; auto. unfold pick. destruct (w_less _ _); auto. Qed.
+
+Lemma omerge_comm P Q a b :
+  osig P a -> osig Q b -> (forall p1 a1 p2 a2, P p1 a1 -> Q p2 a2 -> p1 <> p2 \/ a1 <> a2) ->
+  omerge a b = omerge b a.
+Proof.
+  destruct a as [x|], b as [y|]; simpl; auto. intros Hx Hy Hd. f_equal. unfold pick.
+  destruct (Hd _ _ _ _ Hx Hy) as [Hne|Hne].
+  - destruct (w_less (fst x) (fst y)) eqn:XY, (w_less (fst y) (fst x)) eqn:YX; auto.
+    + apply weight_less_is_le in XY, YX. unfold weight_le in *. lia.
+    + destruct (w_less_total (fst x) (fst y)); congruence.
+  - destruct (w_less (fst x) (fst y)) eqn:XY, (w_less (fst y) (fst x)) eqn:YX; auto.
+    + apply weight_less_is_le in XY, YX. unfold weight_le in *.
+      destruct XY as [?|[? [[? ?]|[? ?]]]], YX as [?|[? [[? ?]|[? ?]]]]; try lia; congruence.
+    + destruct (w_less_total (fst x) (fst y)); congruence.
+Qed.
+
+Definition sigA (p : N) (a : bool) : Prop := a = true.
+Definition sigUA (p : N) (a : bool) : Prop := a = false /\ p = 1.
+Definition sigUser (p : N) (a : bool) : Prop := a = false /\ (p = 2 \/ p = 5).
+Definition sigAuthor (p : N) (a : bool) : Prop := a = false /\ (p = 3 \/ p = 4).
+Definition sig_of (o : origin) := match o with UA => sigUA | User => sigUser | Author => sigAuthor end.
+
+Lemma decl_ev_sig_sheet o sp d p :
+  Forall (fun e => sig_of o (w_prec (fst e)) (w_attr (fst e))) (decl_ev o false sp d p).
+Proof.
+  unfold decl_ev. destruct (d_prop d =? p); constructor; auto.
+  destruct o, (d_imp d); cbv; auto.
+Qed.
+
+Lemma Forall_flat_map {A B} (P : B -> Prop) (f : A -> list B) l :
+  (forall a, Forall P (f a)) -> Forall P (flat_map f l).
+Proof. intros H. induction l; simpl; auto. apply Forall_app; auto. Qed.
+
+Lemma occs_ev_sig_sheet o hint device rs k path p :
+  Forall (fun e => sig_of o (w_prec (fst e)) (w_attr (fst e))) (occs_ev (sheet_occs o hint device rs k path) p).
+Proof.
+  unfold occs_ev, sheet_occs. rewrite flat_map_map. apply Forall_flat_map. intros [d s].
+  unfold occ_ev. cbn [o_prop fst snd]. destruct (d_prop d =? p); constructor; auto.
+  unfold wt. cbn [o_rank o_level fst snd].
+  destruct hint, o, (d_imp d); cbv; auto.
+Qed.
+
+Lemma occs_ev_sig_hint ds p :
+  Forall (fun e => sigAuthor (w_prec (fst e)) (w_attr (fst e))) (occs_ev (attr_occs RHint ds) p).
+Proof.
+  unfold occs_ev, attr_occs. rewrite flat_map_map. apply Forall_flat_map. intros d.
+  unfold occ_ev. cbn [o_prop]. destruct (d_prop d =? p); constructor; auto.
+  unfold wt. cbn [o_rank o_level]. destruct (d_imp d); cbv; auto.
+Qed.
+
+Lemma occs_ev_sig_attr ds p :
+  Forall (fun e => sigA (w_prec (fst e)) (w_attr (fst e))) (occs_ev (attr_occs RAttr ds) p).
+Proof.
+  unfold occs_ev, attr_occs. rewrite flat_map_map. apply Forall_flat_map. intros d.
+  unfold occ_ev. cbn [o_prop]. destruct (d_prop d =? p); constructor; auto.
+  reflexivity.
+Qed.
+
+(* --- the arg-max over numbered occurrences is the sum of the entries *)
+
+Lemma number_from_app {A} (l1 l2 : list A) i :
+  number_from i (l1 ++ l2) = number_from i l1 ++ number_from (i + N.of_nat (length l1)) l2.
+Proof.
+  revert i. induction l1 as [|a l1 IH]; intros i; cbn [app number_from length].
+  - f_equal. lia.
+  - rewrite IH. do 3 f_equal. lia.
+Qed.
+
+Lemma rank_le_total r1 r2 : rank_le r1 r2 = true \/ rank_le r2 r1 = true.
+Proof.
+  destruct r1 as [|s1|], r2 as [|s2|]; simpl; auto using lex_le_total.
+Qed.
+
+Lemma occ_lt_w_less i a n x : i < n ->
+  occ_lt (i, a) (n, x) = w_less (wt a) (wt x).
+Proof.
+  intros Hin. unfold occ_lt. cbn [fst snd].
+  assert (Hpos : (i <? n) = true) by lia. rewrite Hpos, andb_true_r.
+  assert (Hr : negb (rank_le (o_rank x) (o_rank a)) || (rank_le (o_rank a) (o_rank x) && rank_le (o_rank x) (o_rank a))
+               = rank_le (o_rank a) (o_rank x)).
+  { destruct (rank_le (o_rank a) (o_rank x)) eqn:H1, (rank_le (o_rank x) (o_rank a)) eqn:H2; simpl; auto.
+    destruct (rank_le_total (o_rank a) (o_rank x)); congruence. }
+  rewrite Hr. unfold w_less, wt, level_prec.
+  destruct (o_rank a) as [|s1|], (o_rank x) as [|s2|]; cbn [w_prec w_attr w_spec rank_le Bool.eqb negb];
+    try fold (spec_leb (0,0,0) (0,0,0)); try fold (spec_leb s1 (0,0,0)); try fold (spec_leb (0,0,0) s2);
+    try fold (spec_leb s1 s2); try fold (spec_leb (1,0,0) (1,0,0)); rewrite ?spec_leb_lex, ?lex_le_zero, ?lex_le_refl;
+    destruct (N.eqb_spec (level_index (o_level a) + 1) (level_index (o_level x) + 1)); simpl; lia.
+Qed.
+
+Definition went (w : pocc) : entry := (wt (snd w), o_vid (snd w)).
+
+Lemma winner_snoc l x p :
+  winner (number (l ++ [x])) p = better p (winner (number l) p) (N.of_nat (length l), x).
+Proof.
+  unfold winner, number. rewrite number_from_app, fold_left_app. reflexivity.
+Qed.
+
+Lemma winner_sum l p :
+  option_map went (winner (number l) p) = sumE (occs_ev l p)
+  /\ (forall w, winner (number l) p = Some w -> fst w < N.of_nat (length l)).
+Proof.
+  induction l as [|x l IH] using rev_ind.
+  - split; [reflexivity|discriminate].
+  - rewrite winner_snoc, occs_ev_app, sumE_app, app_length. destruct IH as [IH1 IH2].
+    rewrite <- IH1. clear IH1.
+    assert (Hx : occs_ev [x] p = occ_ev p x) by (unfold occs_ev; cbn [flat_map]; apply app_nil_r).
+    rewrite Hx. clear Hx.
+    destruct (winner (number l) p) as [[i a]|].
+    + specialize (IH2 _ eq_refl). cbn [fst] in IH2.
+      unfold better, occ_ev. cbn [snd].
+      destruct (o_prop x =? p).
+      * rewrite (occ_lt_w_less i a (N.of_nat (length l)) x) by lia.
+        rewrite sumE_one. cbn [option_map omerge]. unfold pick, went. cbn [fst snd].
+        destruct (w_less (wt a) (wt x)); split; try reflexivity;
+          intros w [= <-]; cbn [fst length]; lia.
+      * rewrite sumE_nil, omerge_None_r. split; [reflexivity|].
+        intros w [= <-]. cbn [fst]. lia.
+    + unfold better, occ_ev. cbn [snd]. destruct (o_prop x =? p).
+      * rewrite sumE_one. split; [reflexivity|]. intros w [= <-]. cbn [fst length]. lia.
+      * split; [reflexivity|discriminate].
+Qed.
+
+Lemma winner_vid l p :
+  option_map (fun w => o_vid (snd w)) (winner (number l) p) = option_map snd (sumE (occs_ev l p)).
+Proof.
+  destruct (winner_sum l p) as [H _]. rewrite <- H.
+  destruct (winner (number l) p); reflexivity.
+Qed.
+
+(* ------------------------------------------------------------------ 7. the theorem *)
+
+Definition sigNA (p : N) (a : bool) : Prop := a = false.
+
+Lemma osig_weaken (P Q : N -> bool -> Prop) a : (forall p b, P p b -> Q p b) -> osig P a -> osig Q a.
+Proof. destruct a; simpl; auto. Qed.
+
+Lemma reorder a h u ph au us :
+  osig sigA a -> osig sigAuthor h -> osig sigUA u -> osig sigAuthor ph -> osig sigAuthor au -> osig sigUser us ->
+  omerge a (omerge h (omerge u (omerge ph (omerge au us))))
+  = omerge u (omerge us (omerge (omerge h ph) (omerge au a))).
+Proof.
+  intros Ha Hh Hu Hph Hau Hus.
+  assert (NAh : osig sigNA h) by (apply (osig_weaken sigAuthor); auto; intros ? ? [? _]; auto).
+  assert (NAu : osig sigNA u) by (apply (osig_weaken sigUA); auto; intros ? ? [? _]; auto).
+  assert (NAph : osig sigNA ph) by (apply (osig_weaken sigAuthor); auto; intros ? ? [? _]; auto).
+  assert (NAau : osig sigNA au) by (apply (osig_weaken sigAuthor); auto; intros ? ? [? _]; auto).
+  assert (NAus : osig sigNA us) by (apply (osig_weaken sigUser); auto; intros ? ? [? _]; auto).
+  (* the style attribute block goes last *)
+  rewrite (omerge_comm sigA sigNA a (omerge h (omerge u (omerge ph (omerge au us))))); auto.
+  2: { repeat apply osig_merge; auto. }
+  2: { unfold sigA, sigNA. intros; right; congruence. }
+  (* user agent first *)
+  rewrite <- (omerge_assoc h u), (omerge_comm sigAuthor sigUA h u); auto.
+  2: { unfold sigAuthor, sigUA. intros ? ? ? ? [_ ?] [_ ?]. left. lia. }
+  rewrite (omerge_assoc u h).
+  (* user sheets before the author level *)
+  assert (E : omerge h (omerge ph (omerge au us)) = omerge us (omerge (omerge h ph) au)).
+  { rewrite <- (omerge_assoc h ph), <- (omerge_assoc (omerge h ph) au).
+    apply (omerge_comm sigAuthor sigUser); auto.
+    - repeat apply osig_merge; auto.
+    - unfold sigAuthor, sigUser. intros ? ? ? ? [_ ?] [_ ?]. left. lia. }
+  rewrite E, !omerge_assoc. reflexivity.
+Qed.
+
+Lemma occs_ev_flat_map {A} (f : A -> list occ) l p :
+  occs_ev (flat_map f l) p = flat_map (fun x => occs_ev (f x) p) l.
+Proof. unfold occs_ev. apply flat_map_flat_map. Qed.
+
+Lemma authors_sum k path device (F : author_sheet -> bool) authors p :
+  forallb (fun a => rules_no_top_amp (a_rules a)) authors = true ->
+  sumE (flat_map (fun sh => sheet_ev k path sh p)
+         (map (fun r => mkSheet Author None (flatten_rules device r false)) (map a_rules (filter F authors))))
+  = sumE (occs_ev (flat_map (fun a => if F a then sheet_occs Author false device (a_rules a) k path else []) authors) p).
+Proof.
+  induction authors as [|a l IH]; cbn [forallb filter flat_map]; intros Hw; [reflexivity|].
+  apply andb_true_iff in Hw. destruct Hw as [Ha Hl]. rewrite occs_ev_app, sumE_app, <- (IH Hl).
+  destruct (F a); cbn [map flat_map].
+  - rewrite sumE_app. f_equal. apply (sheet_ev_occs k path Author false device (a_rules a) p Ha).
+  - reflexivity.
+Qed.
+
+Lemma users_sum k path (users : list (N * rules)) p :
+  forallb (fun u => rules_no_top_amp (snd u)) users = true ->
+  sumE (flat_map (fun sh => sheet_ev k path sh p)
+         (map (fun u => mkSheet User None (flatten_rules (fst u) (snd u) false)) users))
+  = sumE (occs_ev (flat_map (fun u => sheet_occs User false (fst u) (snd u) k path) users) p).
+Proof.
+  induction users as [|u l IH]; cbn [forallb map flat_map]; intros Hw; [reflexivity|].
+  apply andb_true_iff in Hw. destruct Hw as [Hu Hl].
+  rewrite occs_ev_app, !sumE_app, <- (IH Hl). f_equal.
+  apply (sheet_ev_occs k path User false (fst u) (snd u) p Hu).
+Qed.
+
+Lemma Forall_occs_flat_map {A} (P : entry -> Prop) (f : A -> list occ) l p :
+  (forall x, Forall P (occs_ev (f x) p)) -> Forall P (occs_ev (flat_map f l) p).
+Proof. intros H. rewrite occs_ev_flat_map. apply Forall_flat_map. auto. Qed.
+
+(* the implementation's entries and the specification's occurrences have the same sum *)
+Lemma impl_ev_applicable d k e anc p : doc_no_top_amp d = true ->
+  sumE (impl_ev d k (e :: anc) p) = sumE (occs_ev (applicable d k (e :: anc)) p).
+Proof.
+  intros Hw. unfold doc_no_top_amp in Hw.
+  apply andb_true_iff in Hw. destruct Hw as [Hw Hus].
+  apply andb_true_iff in Hw. destruct Hw as [Hw Hau].
+  apply andb_true_iff in Hw. destruct Hw as [Hua Hph].
+  set (a := sumE (occs_ev (if k =? 0 then attr_occs RAttr (n_style e) else []) p)).
+  set (h := sumE (occs_ev (if doc_hints d then (if k =? 0 then attr_occs RHint (n_hints e) else []) else []) p)).
+  set (u := sumE (occs_ev (sheet_occs UA false (doc_ua_device d) (doc_ua d) k (e :: anc)) p)).
+  set (ph := sumE (occs_ev (if doc_hints d then sheet_occs Author true (doc_ph_device d) (doc_ph d) k (e :: anc) else []) p)).
+  set (au := sumE (occs_ev (flat_map (fun a => if evaluate_media (a_media a) (doc_device d)
+                             then sheet_occs Author false (doc_device d) (a_rules a) k (e :: anc) else []) (doc_authors d)) p)).
+  set (us := sumE (occs_ev (flat_map (fun u => sheet_occs User false (fst u) (snd u) k (e :: anc)) (doc_users d)) p)).
+  assert (L : sumE (impl_ev d k (e :: anc) p) = omerge a (omerge h (omerge u (omerge ph (omerge au us))))).
+  { unfold impl_ev, all_sheets, find_stylesheets.
+    rewrite !flat_map_app, !sumE_app.
+    assert (A : sumE (attr_ev d k (e :: anc) p) = omerge a h).
+    { unfold attr_ev, a, h. destruct (k =? 0).
+      - rewrite sumE_app, attr_occs_ev_attr. f_equal.
+        destruct (doc_hints d); [rewrite attr_occs_ev_hint|]; reflexivity.
+      - destruct (doc_hints d); reflexivity. }
+    rewrite A, !omerge_assoc.
+    f_equal. f_equal. f_equal; [|f_equal; [|f_equal]].
+    - cbn [flat_map]. rewrite app_nil_r.
+      apply (sheet_ev_occs k (e :: anc) UA false (doc_ua_device d) (doc_ua d) p Hua).
+    - unfold ph. destruct (doc_hints d); [|reflexivity]. cbn [flat_map]. rewrite app_nil_r.
+      apply (sheet_ev_occs k (e :: anc) Author true (doc_ph_device d) (doc_ph d) p Hph).
+    - apply authors_sum; auto.
+    - apply users_sum; auto. }
+  assert (R : sumE (occs_ev (applicable d k (e :: anc)) p)
+              = omerge u (omerge us (omerge (omerge h ph) (omerge au a)))).
+  { unfold applicable. rewrite !occs_ev_app, !sumE_app. fold u us a.
+    change (fun a0 => if media_matches (a_media a0) (doc_device d)
+                      then sheet_occs Author false (doc_device d) (a_rules a0) k (e :: anc) else [])
+      with (fun a0 => if evaluate_media (a_media a0) (doc_device d)
+                      then sheet_occs Author false (doc_device d) (a_rules a0) k (e :: anc) else []).
+    fold au. do 2 f_equal. f_equal.
+    unfold h, ph. destruct (doc_hints d); [rewrite occs_ev_app, sumE_app|]; reflexivity. }
+  rewrite L, R. apply reorder.
+  - apply osig_sumE. destruct (k =? 0); [apply occs_ev_sig_attr|constructor].
+  - apply osig_sumE. destruct (doc_hints d); [|constructor]. destruct (k =? 0); [apply occs_ev_sig_hint|constructor].
+  - apply osig_sumE. apply (occs_ev_sig_sheet UA).
+  - apply osig_sumE. destruct (doc_hints d); [apply (occs_ev_sig_sheet Author)|constructor].
+  - apply osig_sumE. apply Forall_occs_flat_map. intros x.
+    destruct (evaluate_media _ _); [apply (occs_ev_sig_sheet Author)|constructor].
+  - apply osig_sumE. apply Forall_occs_flat_map. intros x. apply (occs_ev_sig_sheet User).
+Qed.
+
+(* main theorem: for every document, element (k = 0) or pseudo-element, and
+   property, the model of the implementation returns the value of the
+   declaration the specification elects *)
+Theorem cascade_impl_spec d k path p : doc_no_top_amp d = true ->
+  used d k path p = cascaded d k path p.
+Proof.
+  intros Hw. unfold used, cascaded. destruct path as [|e anc]; [reflexivity|].
+  rewrite winner_vid, <- (impl_ev_applicable d k e anc p Hw), cascade_impl_ev. reflexivity.
+Qed.
+
+(* ------------------------------------------------------------------ 8. the cascade order is a strict total order; winner = arg-max *)
+
+Lemma rank_le_trans a b c : rank_le a b = true -> rank_le b c = true -> rank_le a c = true.
+Proof.
+  destruct a as [|s1|], b as [|s2|], c as [|s3|]; simpl; intros H1 H2; auto; try discriminate.
+  - eapply lex_le_trans; eauto using lex_le_zero.
+  - eapply lex_le_trans; eauto.
+  - eapply lex_le_trans; eauto.
+Qed.
+
+Lemma occ_lt_irrefl x : occ_lt x x = false.
+Proof.
+  unfold occ_lt. pose proof (rank_le_total (o_rank (snd x)) (o_rank (snd x))) as H.
+  destruct (rank_le (o_rank (snd x)) (o_rank (snd x))); [lia|]. destruct H; discriminate.
+Qed.
+
+Lemma occ_lt_trans x y z : occ_lt x y = true -> occ_lt y z = true -> occ_lt x z = true.
+Proof.
+  unfold occ_lt.
+  set (rx := o_rank (snd x)); set (ry := o_rank (snd y)); set (rz := o_rank (snd z)).
+  pose proof (rank_le_trans rx ry rz). pose proof (rank_le_trans rx rz ry).
+  pose proof (rank_le_trans ry rx rz). pose proof (rank_le_trans ry rz rx).
+  pose proof (rank_le_trans rz rx ry). pose proof (rank_le_trans rz ry rx).
+  pose proof (rank_le_total rx ry). pose proof (rank_le_total ry rz). pose proof (rank_le_total rx rz).
+  destruct (rank_le rx ry), (rank_le ry rx), (rank_le ry rz), (rank_le rz ry), (rank_le rx rz), (rank_le rz rx);
+    try lia; intuition discriminate.
+Qed.
+
+Lemma occ_lt_total x y : fst x <> fst y -> occ_lt x y = true \/ occ_lt y x = true.
+Proof.
+  unfold occ_lt. intros Hne.
+  pose proof (rank_le_total (o_rank (snd x)) (o_rank (snd y))).
+  destruct (rank_le (o_rank (snd x)) (o_rank (snd y))), (rank_le (o_rank (snd y)) (o_rank (snd x))); try lia;
+    intuition discriminate.
+Qed.
+
+Lemma occ_lt_asym x y : occ_lt x y = true -> occ_lt y x = false.
+Proof.
+  intros H. destruct (occ_lt y x) eqn:E; auto.
+  pose proof (occ_lt_trans _ _ _ H E) as C. rewrite occ_lt_irrefl in C. discriminate.
+Qed.
+
+Lemma winner_app1 l x p : winner (l ++ [x]) p = better p (winner l p) x.
+Proof. unfold winner. rewrite fold_left_app. reflexivity. Qed.
+
+Lemma winner_none l p : winner l p = None -> forall x, In x l -> o_prop (snd x) <> p.
+Proof.
+  induction l as [|y l IH] using rev_ind; [intros _ x []|].
+  rewrite winner_app1. unfold better. destruct (N.eqb_spec (o_prop (snd y)) p) as [E|E].
+  - destruct (winner l p) as [a|]; [destruct (occ_lt a y)|]; discriminate.
+  - intros Hn x Hin. apply in_app_or in Hin. destruct Hin as [Hin|[<-|[]]]; auto.
+Qed.
+
+Lemma winner_is_winner l p w : NoDup (map fst l) -> winner l p = Some w -> is_winner l p w.
+Proof.
+  revert w. induction l as [|y l IH] using rev_ind; intros w Hnd; [discriminate|].
+  rewrite map_app in Hnd. cbn [map] in Hnd.
+  pose proof (NoDup_remove_1 _ _ _ Hnd) as Hnd'. rewrite app_nil_r in Hnd'.
+  assert (Hfresh : forall a, In a l -> fst a <> fst y).
+  { intros a Ha E. apply NoDup_remove_2 in Hnd. rewrite app_nil_r in Hnd.
+    apply Hnd. rewrite <- E. apply in_map; auto. }
+  rewrite winner_app1. unfold better. destruct (N.eqb_spec (o_prop (snd y)) p) as [E|E].
+  - destruct (winner l p) as [a|] eqn:W.
+    + destruct (IH a Hnd' eq_refl) as [Ha [Hpa Hmax]].
+      destruct (occ_lt a y) eqn:Lt; intros [= <-].
+      * split; [apply in_or_app; simpl; auto|]. split; auto.
+        intros x Hin Hp. apply in_app_or in Hin. destruct Hin as [Hin|[<-|[]]]; auto.
+        right. destruct (Hmax x Hin Hp) as [->|Hx]; auto. eapply occ_lt_trans; eauto.
+      * split; [apply in_or_app; auto|]. split; auto.
+        intros x Hin Hp. apply in_app_or in Hin. destruct Hin as [Hin|[<-|[]]]; auto.
+        right. destruct (occ_lt_total y a) as [H|H].
+        { intros Heq. apply (Hfresh a Ha). auto. }
+        { exact H. }
+        { congruence. }
+    + intros [= <-]. split; [apply in_or_app; simpl; auto|]. split; auto.
+      intros x Hin Hp. apply in_app_or in Hin. destruct Hin as [Hin|[<-|[]]]; auto.
+      exfalso. apply (winner_none l p W x Hin Hp).
+  - intros Hw. destruct (IH w Hnd' Hw) as [Ha [Hpa Hmax]].
+    split; [apply in_or_app; auto|]. split; auto.
+    intros x Hin Hp. apply in_app_or in Hin. destruct Hin as [Hin|[<-|[]]]; auto; contradiction.
+Qed.
+
+Lemma is_winner_unique l p w w' : is_winner l p w -> is_winner l p w' -> w = w'.
+Proof.
+  intros [H1 [P1 M1]] [H2 [P2 M2]].
+  destruct (M1 w' H2 P2) as [|L1]; auto. destruct (M2 w H1 P1) as [|L2]; auto.
+  rewrite (occ_lt_asym _ _ L1) in L2. discriminate.
+Qed.
+
+Lemma number_from_fst {A} (l : list A) i : map fst (number_from i l) = map (fun k => i + N.of_nat k) (seq 0 (length l)).
+Proof.
+  revert i. induction l as [|a l IH]; intros i; [reflexivity|].
+  cbn [number_from map length seq]. rewrite IH, <- seq_shift, map_map. cbn [fst]. f_equal; [lia|].
+  apply map_ext. intros k. lia.
+Qed.
+
+Lemma number_nodup {A} (l : list A) : NoDup (map fst (number l)).
+Proof.
+  unfold number. rewrite number_from_fst. apply FinFun.Injective_map_NoDup; [|apply seq_NoDup].
+  intros a b H. lia.
+Qed.
+
+Lemma number_snd {A} (l : list A) i : map snd (number_from i l) = l.
+Proof. revert i. induction l; intros; simpl; congruence. Qed.
+
+(* the executable arg-max is the declaration the cascade order elects, and it is unique *)
+Theorem winner_correct (l : list occ) p w :
+  winner (number l) p = Some w <-> is_winner (number l) p w.
+Proof.
+  split; [apply winner_is_winner, number_nodup|].
+  intros Hw. destruct (winner (number l) p) as [w'|] eqn:W.
+  - f_equal. eapply is_winner_unique; eauto. apply winner_is_winner; auto. apply number_nodup.
+  - destruct Hw as [Hin [Hp _]]. exfalso. apply (winner_none _ _ W w Hin Hp).
+Qed.
+
+Theorem winner_none_iff (l : list occ) p :
+  winner (number l) p = None <-> forall o, In o l -> o_prop o <> p.
+Proof.
+  split.
+  - intros W o Hin. rewrite <- (number_snd l 0) in Hin. apply in_map_iff in Hin.
+    destruct Hin as [x [<- Hx]]. apply (winner_none _ _ W x Hx).
+  - intros H. destruct (winner (number l) p) as [w|] eqn:W; auto.
+    apply winner_correct in W. destruct W as [Hin [Hp _]]. exfalso.
+    apply (H (snd w)); auto. rewrite <- (number_snd l 0). apply in_map. exact Hin.
+Qed.
+
+(* ------------------------------------------------------------------ 9. media / non matching rules *)
+
+(* a non matching @media block, a misplaced or non matching @import contribute nothing *)
+Lemma media_filter_flatten device q inner rest ig :
+  evaluate_media q device = false ->
+  flatten_rules device (RMedia q inner rest) ig = flatten_rules device (RMedia q RNil rest) ig.
+Proof. intros H. cbn [flatten_rules]. rewrite H. reflexivity. Qed.
+
+Lemma import_filter_flatten device q fetched sh rest ig :
+  ig = true \/ evaluate_media q device = false \/ fetched = false ->
+  flatten_rules device (RImport q fetched sh rest) ig = flatten_rules device rest ig.
+Proof.
+  intros H. cbn [flatten_rules]. destruct ig; auto.
+  destruct (evaluate_media q device); cbn [negb]; auto. destruct fetched; auto.
+  destruct H as [H|[H|H]]; discriminate.
+Qed.
+
+(* a rule none of whose selectors matches the element leaves its cascaded style unchanged *)
+Lemma non_matching_rule o forced k path m r :
+  group_matches (fst r) k path = false -> forall p, apply_rule o forced k path m r p = m p.
+Proof.
+  intros H p. rewrite (acts_apply_rule o forced k path r m p).
+  destruct r as [g ds]. rewrite rule_ev_sum. cbn [fst] in H. rewrite H. apply omerge_None_r.
+Qed.
+
+(* every value the model returns is the value of a declaration that applies *)
+Lemma used_applicable d k path p v : doc_no_top_amp d = true ->
+  used d k path p = Some v -> exists o, In o (applicable d k path) /\ o_prop o = p /\ o_vid o = v.
+Proof.
+  intros Hw. rewrite (cascade_impl_spec d k path p Hw). unfold cascaded.
+  destruct (winner (number (applicable d k path)) p) as [w|] eqn:W; [|discriminate].
+  intros [= <-]. apply winner_correct in W. destruct W as [Hin [Hp _]].
+  exists (snd w). repeat split; auto.
+  rewrite <- (number_snd (applicable d k path) 0). apply in_map. exact Hin.
 Qed.
